@@ -446,6 +446,10 @@ def run(ctx):
     v_ = _c14c.control_value_sites(db, rep)['controls:only-locals-defaults-to-me']
     r6.check(v_[0], 'controls:only-locals-defaults-to-me', v_[1], v_[2], v_[3])
     r6.expect_min(2)
+    r7 = rep.rule('C10.7-per-recipient-senders', 'R-TABLE', 'senderadd() over a sequence of deliveries with the sender buffer reused: owner-@host-@[] becomes owner-box=domain@host from this call\'s sender and recipient, every other sender is copied unchanged (VERP expansion as documented in addresses(5))')
+    for inst_, v_ in sorted(qsend.senderadd_sites(db, rep).items()):
+        r7.check(v_[0], inst_, v_[1], v_[2], v_[3])
+    r7.expect_min(1)
     r4 = rep.rule('C10.4-one-record-per-recipient', 'R-TYPESTATE', 'todo_do: exactly one channel record (rwline) per T record, to the channel rewrite() chose, in file order')
     td = qsend.analyse_todo_do(db, rep)
     attach(r4, td, only={'todo:exactly-one-channel-record-per-T', 'todo:no-channel-record-for-non-T', 'todo:channel-record-is-rwline',
